@@ -36,7 +36,7 @@ import (
 // (goroutine dump on join time-out), table invariants at quiescence and goroutines
 // that survive Close. The race detector writes its reports to a log the parent reads.
 
-const c09Rule = "scenarios drawn by rapid: a packet loop over 10..60 protocol frames (every C08 frame class, host-tracking churn frames, router advertisements) through Parse -> Process* -> Notify on a reused buffer, a purge goroutine (VerifPurge with advancing time), 1..6 API actors each with 5..40 calls (FindIP, GetHosts + row-locked reads, IPAddrs, FindByMAC, FindMACEntry, PrintTable, Capture, Release, IsCaptured, DHCP offer get/set, ARP/ICMPv6/DHCP StartHunt/StopHunt, IsHunting, MinuteTicker, the handlers' PrintTable, FindRouter, DNSFind/DNSExist), a notification consumer and (1 in 4) a concurrent Close; drawn pauses (yield / 20 us / 200 us / 2 ms) and GOMAXPROCS 1..16 perturb the schedule; each scenario runs 3 rounds on fresh sessions in a child process built with -race. oracles: race-detector reports (signature = the two innermost library functions), unrecovered runtime faults (concurrent map access), recovered panics, join time-out = deadlock (goroutine dump), C05 invariants once all goroutines have joined and the purge probes are out, no library goroutine left 10 s after Close. non-trivial = at least two actors and a purge overlapped the packet loop (measured in the child); distinct by hash of the scenario"
+const c09Rule = "scenarios drawn by rapid: a packet loop over 10..60 protocol frames (every C08 frame class, host-tracking churn frames, router advertisements) through Parse -> Process* -> Notify on a reused buffer, a purge goroutine (VerifPurge with advancing time), 1..6 API actors each with 5..40 calls (FindIP, GetHosts + row-locked reads, IPAddrs, FindByMAC, FindMACEntry, PrintTable, Capture, Release, IsCaptured, DHCP offer get/set, ARP/ICMPv6/DHCP StartHunt/StopHunt, IsHunting, MinuteTicker, the handlers' PrintTable, FindRouter, DNSFind/DNSExist), a notification consumer and (1 in 4) a concurrent Close by 1..3 goroutines; drawn pauses (yield / 20 us / 200 us / 2 ms) and GOMAXPROCS 1..16 perturb the schedule; each scenario runs 3 rounds on fresh sessions in a child process built with -race. oracles: race-detector reports (signature = the two innermost library functions), unrecovered runtime faults (concurrent map access), recovered panics, join time-out = deadlock (goroutine dump), C05 invariants once all goroutines have joined and the purge probes are out, no library goroutine left 10 s after Close. non-trivial = at least two actors and a purge overlapped the packet loop (measured in the child); distinct by hash of the scenario"
 
 type c09Frame struct {
 	B     drv.Hex `json:"b"`
@@ -60,6 +60,7 @@ type c09Case struct {
 	PurgeStep int         `json:"purge_step"` // 0: 30 s, 1: 3 min, 2: 40 min
 	PurgeP    int         `json:"purge_p"`
 	CloseAt   int         `json:"close_at"` // -1: Close after everything joined; k: Close runs concurrently once k frames were processed
+	Closers   int         `json:"closers"`  // how many goroutines call the Close methods at that moment (Close is in the statement's API list)
 }
 
 type c09Result struct {
@@ -413,12 +414,24 @@ func c09ChildRun(c c09Case) (res c09Result) {
 			go func() {
 				defer wg.Done()
 				<-closeNow
-				guard(func() {
-					e.arp.Close()
-					e.icmp6.Close()
-					e.dhcp.Close()
-					e.s.Close()
-				})
+				var cw sync.WaitGroup
+				for k := 0; k < max(1, c.Closers); k++ {
+					cw.Add(1)
+					go func(k int) {
+						defer cw.Done()
+						guard(func() {
+							if k%2 == 1 { // another order for every other closer
+								e.s.Close()
+							}
+							e.arp.Close()
+							e.icmp6.Close()
+							e.dhcp.Close()
+							e.dns.Close()
+							e.s.Close()
+						})
+					}(k)
+				}
+				cw.Wait()
 			}()
 		}
 		close(start)
@@ -437,8 +450,12 @@ func c09ChildRun(c c09Case) (res c09Result) {
 				}
 			}
 			sort.Strings(stuck)
+			mu.Lock() // the stuck goroutines' siblings may still be counting
 			res.Deadlock = strings.Join(stuck, " | ") + "\x00" + st
-			return
+			out := res
+			out.Panics = append([]string(nil), res.Panics...)
+			mu.Unlock()
+			return out
 		}
 		if overlapActors >= 2 && overlapPurge {
 			res.Overlapped++
@@ -450,10 +467,17 @@ func c09ChildRun(c c09Case) (res c09Result) {
 				res.Invariant = sig + "\x00" + msg
 				return
 			}
-			e.arp.Close()
-			e.icmp6.Close()
-			e.dhcp.Close()
-			go e.s.Close() // sleeps one second
+			for k := 0; k < max(1, c.Closers); k++ { // Close may be called by several goroutines
+				go func() {
+					guard(func() {
+						e.arp.Close()
+						e.icmp6.Close()
+						e.dhcp.Close()
+						e.dns.Close()
+						e.s.Close() // sleeps one second
+					})
+				}()
+			}
 		} else {
 			res.ClosedEarly++
 		}
@@ -510,8 +534,9 @@ func TestC09Child(t *testing.T) {
 // ---- parent
 
 type raceReport struct {
-	sig  string
-	text string
+	sig         string
+	text        string
+	harnessOnly bool // no library frame anywhere in the report: a race of the harness with itself, not a verdict
 }
 
 var reRaceHead = regexp.MustCompile(`^(Write|Read|Previous write|Previous read|Atomic write|Atomic read|Previous atomic write|Previous atomic read) at 0x[0-9a-f]+ by `)
@@ -542,7 +567,7 @@ func parseRaceLog(txt string) (out []raceReport) {
 			}
 		}
 		sort.Strings(fns)
-		out = append(out, raceReport{sig: "race:" + strings.Join(fns, " <-> "), text: strings.TrimSpace(rep)})
+		out = append(out, raceReport{sig: "race:" + strings.Join(fns, " <-> "), text: strings.TrimSpace(rep), harnessOnly: !strings.Contains(rep, "github.com/irai/packet")})
 	}
 	return
 }
@@ -621,7 +646,14 @@ func c09Run(tb drv.TB, rec *drv.Rec, sub string, c c09Case) {
 	races, _ := filepath.Glob(filepath.Join(dir, "race.*"))
 	for _, f := range races {
 		b, _ := os.ReadFile(f)
-		findings = append(findings, parseRaceLog(string(b))...)
+		for _, r := range parseRaceLog(string(b)) {
+			if r.harnessOnly {
+				rec.Class("ignored: race report without any library frame (harness)")
+				rec.Note("harness-only race report: " + truncate(r.text, 600))
+				continue
+			}
+			findings = append(findings, r)
+		}
 	}
 	var res c09Result
 	if b, err := os.ReadFile(rf); err == nil {
@@ -636,25 +668,25 @@ func c09Run(tb drv.TB, rec *drv.Rec, sub string, c c09Case) {
 	}
 	for _, p := range res.Panics {
 		sig, msg := split(p)
-		findings = append(findings, raceReport{sig, "panic in the child: " + msg})
+		findings = append(findings, raceReport{sig: sig, text: "panic in the child: " + msg})
 	}
 	if res.Deadlock != "" {
 		sig, msg := split(res.Deadlock)
-		findings = append(findings, raceReport{"deadlock:" + sig, "goroutines did not join within 30 s; dump:\n" + truncate(msg, 8000)})
+		findings = append(findings, raceReport{sig: "deadlock:" + sig, text: "goroutines did not join within 30 s; dump:\n" + truncate(msg, 8000)})
 	}
 	if res.Invariant != "" {
 		sig, msg := split(res.Invariant)
-		findings = append(findings, raceReport{sig + "@quiescence", msg})
+		findings = append(findings, raceReport{sig: sig + "@quiescence", text: msg})
 	}
 	for _, l := range res.Leaks {
 		sig, msg := split(l)
-		findings = append(findings, raceReport{"goroutine-leak:" + sig, "still running 10 s after Close:\n" + truncate(msg, 3000)})
+		findings = append(findings, raceReport{sig: "goroutine-leak:" + sig, text: "still running 10 s after Close:\n" + truncate(msg, 3000)})
 	}
 	if !res.Done && res.Deadlock == "" && res.Invariant == "" {
 		if sig, text := fatalSignature(string(logb)); sig != "" {
-			findings = append(findings, raceReport{sig, text})
+			findings = append(findings, raceReport{sig: sig, text: text})
 		} else if timedOut {
-			findings = append(findings, raceReport{"c09-child-timeout", "the child did not finish within 180 s\n" + truncate(string(logb), 6000)})
+			findings = append(findings, raceReport{sig: "c09-child-timeout", text: "the child did not finish within 180 s\n" + truncate(string(logb), 6000)})
 		} else if len(res.Panics) == 0 {
 			// the child died for a reason the harness does not understand: not a verdict
 			rec.Class("inconclusive: child ended without a result")
@@ -701,7 +733,7 @@ func c09Run(tb drv.TB, rec *drv.Rec, sub string, c c09Case) {
 func genC09(t *rapid.T) c09Case {
 	w := gen.DefaultWorld()
 	c := c09Case{Procs: rapid.SampledFrom([]int{1, 2, 2, 4, 4, 8, 16}).Draw(t, "procs"), Rounds: 3, Purges: rapid.IntRange(1, 6).Draw(t, "purges"),
-		PurgeStep: rapid.IntRange(0, 2).Draw(t, "purgeStep"), PurgeP: rapid.IntRange(0, 4).Draw(t, "purgeP"), CloseAt: -1}
+		PurgeStep: rapid.IntRange(0, 2).Draw(t, "purgeStep"), PurgeP: rapid.IntRange(0, 4).Draw(t, "purgeP"), CloseAt: -1, Closers: rapid.SampledFrom([]int{1, 1, 2, 3}).Draw(t, "closers")}
 	hcfg := histCfg{}
 	for i := rapid.IntRange(10, 60).Draw(t, "nframes"); i > 0; i-- {
 		var f c09Frame
